@@ -19,6 +19,7 @@ text are the logged edits:
       re-rooted by an explicit //@subst
   R7  closure given parameter types / braces so that it can carry a contract
   R8  struct fields made `pub` (visibility only)
+  R9  locspan `Meta::map(f)` inlined (`Meta(f(self.0), self.1)`) and beta-reduced
 
 Anything else that cannot be handled raises ExtractError (driver exit 2); the
 extractor never edits code to make it fit.
@@ -698,6 +699,50 @@ def rule_R2(ed, src, parts, method, ordinal):
     ed.replace(toks[r0].start, end, new, "R2", "%s with closure -> match" % method)
 
 
+def rule_R9(ed, src, parts, ordinal):
+    """locspan::Meta::map (`Meta(f(self.0), self.1)`, locspan 0.8.2 src/meta.rs) applied to a
+    closure literal or a constructor path, beta-reduced:
+        RECV.map(|PAT| BODY)  ->  { let Meta(verif_v, verif_m) = RECV; let PAT = verif_v; Meta(BODY, verif_m) }
+        RECV.map(PATH)        ->  { let Meta(verif_v, verif_m) = RECV; Meta(PATH(verif_v), verif_m) }"""
+    toks = src.toks
+    bo, bc = parts["body"]
+    hits = []
+    for k in range(bo + 1, bc):
+        t = toks[k]
+        if t.kind == "ident" and t.text == "map" and toks[k - 1].text == ".":
+            j = _next_sig(toks, k + 1, bc)
+            if toks[j].text == "(":
+                hits.append((k, j))
+    if ordinal > len(hits):
+        raise ExtractError("lost anchor: R9 map #%d not found in %s:%d" % (ordinal, src.rel, src.line_of(toks[bo].start)))
+    k, popen = hits[ordinal - 1]
+    pclose = match_close(toks, popen)
+    a0 = _next_sig(toks, popen + 1, pclose)
+    dot_k = k - 1
+    r0 = _receiver_start(toks, dot_k, bo + 1)
+    while toks[r0].kind in ("ws", "comment"):
+        r0 += 1
+    j = dot_k - 1
+    while toks[j].kind in ("ws", "comment"):
+        j -= 1
+    recv = src.text[toks[r0].start:toks[j].end]
+    last = pclose - 1
+    while toks[last].kind in ("ws", "comment"):
+        last -= 1
+    if toks[a0].text == "|":
+        b2 = a0 + 1
+        while toks[b2].text != "|":
+            b2 += 1
+        pat = src.text[toks[a0].end:toks[b2].start].strip()
+        body_lo = _next_sig(toks, b2 + 1, pclose)
+        body = src.text[toks[body_lo].start:toks[last].end]
+        new = "{ let Meta(verif_v, verif_m) = %s; let %s = verif_v; Meta(%s, verif_m) }" % (recv, pat, body)
+    else:
+        path = src.text[toks[a0].start:toks[last].end]
+        new = "{ let Meta(verif_v, verif_m) = %s; Meta(%s(verif_v), verif_m) }" % (recv, path)
+    ed.replace(toks[r0].start, toks[pclose].end, new, "R9", "locspan Meta::map inlined and beta-reduced")
+
+
 def rule_R3(ed, src, parts, pattern):
     bo, bc = parts["body"]
     a, b = find_in(src, bo + 1, bc, pattern)
@@ -966,6 +1011,7 @@ def canary_text(text):
 class Unit:
     def __init__(self, repo, template_path, canary=False):
         self.canary = canary
+        self.canary_loops = 0
         self.repo = repo
         self.template_path = template_path
         self.sources = {}
@@ -1016,9 +1062,11 @@ class Unit:
                 if not parts:
                     raise ExtractError("%s: //@spec on a non-fn item" % label)
                 at = toks[parts["end"]].start
-                if self.canary and parts["body"] is not None:
-                    text = canary_text(text)
                 ed.insert(at, "\n" + text + "\n", "A", "contract")
+                if self.canary and parts["body"] is not None:
+                    # vacuity canary: the precondition (and context) must not be contradictory,
+                    # so `false` must NOT be provable at the start of the body
+                    ed.insert(toks[parts["body"][0]].end, "\nproof { assert(false); } // vacuity canary\n", "A", "canary")
                 n_ann += 1
             elif name == "bodystart":
                 bo, bc = parts["body"]
@@ -1031,6 +1079,10 @@ class Unit:
                     raise ExtractError("lost anchor: %s has %d loops, contract names loop %d" % (label, len(ls), kth))
                 ed.insert(toks[ls[kth - 1][1]].start, "\n" + text + "\n", "A", "loop %d invariant" % kth)
                 n_ann += 1
+                if self.canary:
+                    # the invariant (with the loop condition) must be satisfiable
+                    ed.insert(toks[ls[kth - 1][1]].end, "\nproof { assert(false); } // vacuity canary (loop)\n", "A", "canary")
+                    self.canary_loops += 1
             elif name == "afterloop":
                 bo, bc = parts["body"]
                 ls = loops_in(src, bo + 1, bc)
@@ -1171,6 +1223,8 @@ class Unit:
                     rule_R4(ed, src, parts)
                 elif r == "R5":
                     rule_R5(ed, src, parts, int(args[1]) if len(args) > 1 else 1)
+                elif r == "R9":
+                    rule_R9(ed, src, parts, int(args[1]) if len(args) > 1 else 1)
                 else:
                     raise ExtractError("%s: unknown rule %s" % (label, r))
             elif name == "closure":
